@@ -69,7 +69,7 @@ pub struct RxDgramRec {
 #[derive(Clone, Debug)]
 pub enum Ev {
     PacketSent { space: Space, pn: u64, len: usize, mode: u8 },
-    PacketLost { space: Space, pn: u64, bytes: u16, mtu_probe: bool },
+    PacketLost { space: Space, pn: u64, bytes: u16, mtu_probe: bool, path: u64 },
     AckRangeReceived { space: Space, lo: u64, hi: u64, in_pn: u64 },
     Metrics {
         path: u64,
@@ -451,7 +451,7 @@ impl event::Subscriber for EventTap {
         if let Some((space, pn)) = hdr(&e.packet_header) {
             self.push(
                 meta,
-                Ev::PacketLost { space, pn, bytes: e.bytes_lost, mtu_probe: e.is_mtu_probe },
+                Ev::PacketLost { space, pn, bytes: e.bytes_lost, mtu_probe: e.is_mtu_probe, path: e.path.id },
             );
         }
     }
